@@ -304,6 +304,8 @@ def gen_tree(rng, cfg=None):
                 manifests[par2]['entries'].append(e2)
     # noise
     for mp in manifests:
+        if rng.random() < cfg.get('p_style', 0.0):
+            manifests[mp]['style'] = rng.choice(['nofinalnl', 'nofinalnl', 'crlf', 'cr', 'tabs', 'blank', 'trailing-space', 'double-space'])
         ents = manifests[mp]['entries']
         if rng.random() < 0.15:
             ents.append({'tag': 'DIST', 'path': 'dist-%d.tar' % rng.randrange(9), 'c': 'd', 'hashes': ['SHA512']})
@@ -329,7 +331,10 @@ def gen_tree(rng, cfg=None):
         for o in order:
             if manifests[o].get('parent') == mp:
                 emit(o)
-        out.append({'p': mp, 'entries': manifests[mp]['entries']})
+        spec = {'p': mp, 'entries': manifests[mp]['entries']}
+        if manifests[mp].get('style'):
+            spec['style'] = manifests[mp]['style']
+        out.append(spec)
 
     emit(top)
     for mp in order:
